@@ -9,6 +9,7 @@ mod c02;
 mod c03;
 mod c05;
 mod c08;
+mod c09;
 mod tiered;
 mod c13;
 mod common;
@@ -65,6 +66,7 @@ fn main() {
             "C03" => c03::replay(&plan, &mut sum),
             "C08" => c08::replay(&plan, &mut sum),
             "C05" => c05::replay(&plan, &mut sum),
+            "C09" => c09::replay(&plan, &mut sum),
             _ => Err(format!("unknown check {}", check)),
         };
         if let Err(e) = r {
@@ -79,6 +81,7 @@ fn main() {
             "C03" => c03::run_batch(seed, start, count, &tier, budget_ms, &mut sum),
             "C08" => c08::run_batch(seed, start, count, &tier, budget_ms, &mut sum),
             "C05" => c05::run_batch(seed, start, count, &tier, budget_ms, &mut sum),
+            "C09" => c09::run_batch(seed, start, count, &tier, budget_ms, &mut sum),
             _ => {
                 eprintln!("unknown check {}", check);
                 status = 2;
